@@ -56,37 +56,8 @@ def _tolerant(test: ast.AST) -> bool:
 
 
 def stateless_rule(ctx: Ctx, model, rid: str) -> None:
-    """No function of the linear KK pipeline reads or writes a module-level mutable container: the design matrix,
-    right-hand side and fitted circuit are functions of the call's arguments (a cache keyed on less than the whole grid
-    would hand one spectrum the matrix of another)."""
-    n = 0
-    for mod in (LS, MI, UT):
-        m = ctx.repo.modules[mod]
-        mutable = {}
-        for st in m.tree.body:
-            if isinstance(st, (ast.Assign, ast.AnnAssign)) and st.value is not None:
-                t = st.targets[0] if isinstance(st, ast.Assign) else st.target
-                if isinstance(t, ast.Name) and (isinstance(st.value, (ast.Dict, ast.List, ast.Set, ast.DictComp, ast.ListComp, ast.SetComp))
-                                                or (isinstance(st.value, ast.Call) and dotted(st.value.func).split(".")[-1] in ("dict", "list", "set", "defaultdict", "OrderedDict", "WeakKeyDictionary", "WeakValueDictionary"))):
-                    mutable[t.id] = st
-        for q, fi in sorted(model.funcs.items()):
-            if fi.module != mod:
-                continue
-            n += 1
-            deco = [norm(d) for d in fi.node.decorator_list]
-            bad = [d for d in deco if any(k in d for k in ("cache", "lru_cache", "memoize"))]
-            glob = [x for x in walk_ordered(fi.node) if isinstance(x, ast.Global)]
-            local = {a.arg for a in fi.node.args.args + fi.node.args.kwonlyargs} | {x.id for x in walk_ordered(fi.node) if isinstance(x, ast.Name) and isinstance(x.ctx, ast.Store)}
-            uses = [x for x in walk_ordered(fi.node) if isinstance(x, ast.Name) and x.id in mutable and x.id not in local]
-            if bad or glob or uses:
-                what = bad[0] if bad else (f"global {', '.join(glob[0].names)}" if glob else f"module-level container {uses[0].id}")
-                ctx.instance(rid, f"{fi.qual}: stateless")
-                ctx.violation(rid, f"{mod.split('.')[-1]}:{fi.qual}:module-state", mod, (uses[0] if uses else fi.node),
-                              f"{fi.qual} depends on {what}: its result is no longer a function of the frequencies/time constants/options it is called with")
-    ctx.instance(rid, f"{n} functions of least_squares/matrix_inversion/utility use no module-level mutable state or memoising decorator")
-    if n < 20:
-        raise AnalysisError(f"stateless rule: only {n} functions inspected")
-    ctx.ok()
+    from ..effects import stateless_rule as _sr
+    _sr(ctx, model, rid, (LS, MI, UT), 20, "its result is no longer a function of the frequencies/time constants/options it is called with")
 
 
 def zero_guard_rule(ctx: Ctx, model, rid: str, why: str) -> None:
